@@ -35,7 +35,9 @@ for typ, ctor, dele, dtype, dup in TX:
 //@   ensures [C25] made_idle: result.State == nil && result.Data == nil && !finished(result.RetryTransaction.TransactionBase) &&
 //@      result.RetryTransaction.TransactionBase.err == nil && result.retryNum == 0
 //@   ensures [C19] budget: result.retryCount == client.cfg.RetryCount && result.retryDelay == client.cfg.RetryDelay
-''' % ctor)
+//@   at return after ghost result.RetryTransaction.owner = box(*%s, result)
+//@   ensures [C25] made_owner: result.RetryTransaction.owner == box(*%s, result)
+''' % (ctor, typ, typ))
     # retry closure
     pre = 'wfFromClient(lastPkt)'
     if dtype == 'Subscribe':
@@ -83,20 +85,26 @@ w("""
 //@ opaque pred clUnsubEntry(c *Client, t *unsubscribeTransaction) = t != nil && t.transaction != nil && ctxWF(c, t.transaction) && istype(t.Data, *pkts1.Unsubscribe) && t.Data.(*pkts1.Unsubscribe) != nil
 //@ opaque pred clPub1Entry(c *Client, t *publishQOS1Transaction) = t != nil && t.transaction != nil && ctxWF(c, t.transaction)
 //@ opaque pred clPub2Entry(c *Client, t *publishQOS2Transaction) = t != nil && t.transaction != nil && ctxWF(c, t.transaction)
-//@ opaque pred clBp2Entry(c *Client, t *brokerPublishQOS2Transaction) = t != nil && t.client == c && t.TransactionBase != nil && t.TransactionBase.done != nil && t.publish != nil
+//@ opaque pred clBp2Entry(c *Client, t *brokerPublishQOS2Transaction) = t != nil && t.client == c && t.TransactionBase != nil && t.TransactionBase.done != nil
 //@ pred clEntryWF(c *Client, v iface) = v != nil &&
 //@      (istype(v, *registerTransaction) ==> clRegEntry(c, v.(*registerTransaction))) &&
 //@      (istype(v, *subscribeTransaction) ==> clSubEntry(c, v.(*subscribeTransaction))) &&
 //@      (istype(v, *unsubscribeTransaction) ==> clUnsubEntry(c, v.(*unsubscribeTransaction))) &&
 //@      (istype(v, *publishQOS1Transaction) ==> clPub1Entry(c, v.(*publishQOS1Transaction))) &&
 //@      (istype(v, *publishQOS2Transaction) ==> clPub2Entry(c, v.(*publishQOS2Transaction))) &&
-//@      (istype(v, *brokerPublishQOS2Transaction) ==> clBp2Entry(c, v.(*brokerPublishQOS2Transaction)))
-//@ pred clEntries(c *Client) = forall k uint16 :: (k in c.transactions.bypktID) ==> clEntryWF(c, c.transactions.bypktID[k])
+//@      (istype(v, *brokerPublishQOS2Transaction) ==> clBp2Entry(c, v.(*brokerPublishQOS2Transaction)) && v.(*brokerPublishQOS2Transaction).publish != nil)
+// Each retry transaction belongs to exactly one exchange (ghost back pointer RetryTransaction.owner set by the constructors),
+// so a step that changes the state of one exchange leaves the others as they were.
+//@ spec clRtOf(v iface) *transactions.RetryTransaction = ite(istype(v, *registerTransaction), v.(*registerTransaction).RetryTransaction,
+//@      ite(istype(v, *subscribeTransaction), v.(*subscribeTransaction).RetryTransaction, ite(istype(v, *unsubscribeTransaction), v.(*unsubscribeTransaction).RetryTransaction,
+//@      ite(istype(v, *publishQOS1Transaction), v.(*publishQOS1Transaction).RetryTransaction, ite(istype(v, *publishQOS2Transaction), v.(*publishQOS2Transaction).RetryTransaction, nil)))))
+//@ spec clOwns(v iface) bool = clRtOf(v) != nil ==> clRtOf(v).owner == v
+//@ pred clEntries(c *Client) = forall k uint16 :: (k in c.transactions.bypktID) ==> clEntryWF(c, c.transactions.bypktID[k]) && clOwns(c.transactions.bypktID[k])
 // by packet type: CONNECT (4) -> connect exchange, PINGREQ (22) -> ping, DISCONNECT (24) -> disconnect or sleep exchange
 //@ opaque pred clConnEntry(c *Client, t *connectTransaction) = t != nil && t.client == c && timedWF(t.TimedTransaction)
 //@ opaque pred clPingEntry(c *Client, t *pingTransaction) = t != nil && t.transaction != nil && ctxWF(c, t.transaction)
 //@ opaque pred clDiscEntry(c *Client, t *disconnectTransaction) = t != nil && t.transaction != nil && ctxWF(c, t.transaction)
-//@ opaque pred clSleepEntry(c *Client, t *sleepTransaction) = t != nil && t.client == c && t.TransactionBase != nil && t.TransactionBase.done != nil
+//@ opaque pred clSleepEntry(c *Client, t *sleepTransaction) = t != nil && t.client == c && t.TransactionBase != nil && t.TransactionBase.done != nil && t.log != nil
 //@ pred clTypedWF(c *Client, v iface) = v != nil &&
 //@      (istype(v, *connectTransaction) ==> clConnEntry(c, v.(*connectTransaction))) &&
 //@      (istype(v, *pingTransaction) ==> clPingEntry(c, v.(*pingTransaction))) &&
